@@ -48,4 +48,9 @@ mk("C06-consumer-assign-form-defines", [("rewriter/rewrite.go", "\tassign := X.A
 mk("C07-eta-reduces-method-values", [("rewriter/optimize.go", "\t\t\t\treturn false // method value", "\t\t\t\tid = f.Sel // method value\n\t\t\t\tfn, _ := ctx.ObjectOf(id).(*types.Func)\n\t\t\t\treturn fn != nil")])
 mk("C11-assert-on-else-if-chain-in-case", [("rewriter/yield_block.go", "\tassert(b.kind == kindDelay ||\n\t\tb.kind == kindFor || b.kind == kindIf || b.kind == kindSwitch)", "\tassert(b.kind == kindDelay ||\n\t\tb.kind == kindFor || b.kind == kindIf)")])
 mk("C15-symcnt-not-per-file", [("rewriter/range.go", "\tr.symCnt++\n\treturn prefix + strconv.Itoa(r.symCnt)", "\tglobalSymCnt++\n\treturn prefix + strconv.Itoa(globalSymCnt)"), ("rewriter/range.go", "func (r *yieldRewriter) gensym(", "var globalSymCnt int\n\nfunc (r *yieldRewriter) gensym(")])
-mk("C16-tmp-dir-left-behind", [("rewriter/compile.go", "\ttmpOutputDir := mustMkDir(dir + \"_tmp\")\n\tif !runningWithGoTest {", "\ttmpOutputDir := mustMkDir(dir + \"_tmp\")\n\tif false {")])
+mk("C16-tmp-dir-left-behind", [("rewriter/compile.go", "\ttmpOutputDir := mustMkDir(filepath.Join(dir, \"_co_tmp\"))\n\tif !runningWithGoTest {", "\ttmpOutputDir := mustMkDir(filepath.Join(dir, \"_co_tmp\"))\n\tif false {")])
+mk("C16-header-tag-wrong", [("rewriter/compile.go", "\tcomment        = fmt.Sprintf(fileComment, opt.buildTag)", "\tcomment        = fmt.Sprintf(fileComment, defaultFileSuffix+\"gen\")")])
+mk("C16-test-suffix-mapping", [("rewriter/compile.go", "\t\tfilename = replace(filename, testFileSuffix, \"_test.go\")", "\t\tfilename = replace(filename, testFileSuffix, \"_gen_test.go\")")])
+mk("C12-range-func-unchecked", [("rewriter/range.go", "\t\t\tcase *types.Signature:\n\t\t\t\tpanic(\"implement me: range func\")", "\t\t\tcase *types.Signature:\n\t\t\t\t// native range-over-func")])
+mk("C13-free-comments-and-directives", [("rewriter/optimize.go", "\t\to.optimizeImports(f)", "\t\to.optimizeImports(f)\n\t\tf.File.Comments = nil")])
+mk("C05-yieldfrom-evaluates-arg-per-step", [("rewriter/rewrite.go", "\tinit := X.Define(iter, fr.X)\n\tcond := X.Call(next)", "\tinit := X.Define(iter, fr.X)\n\tcond := X.Call(next)\n\tif call, ok := fr.X.(*ast.CallExpr); ok && len(call.Args) == 0 {\n\t\tcond = X.Call(X.Select(fr.X, cstMoveNext))\n\t}")])
